@@ -132,8 +132,11 @@ def rand_exec(rng, nops):
             ops.append("interrupt")
         elif r < 0.93:
             ops.append("pclose %d" % c)
-        elif r < 0.96:
+        elif r < 0.955:
             ops.append("remove %d" % c)
+        elif r < 0.965:
+            ops.append("clear")                   # Server::clear(): the server is used again afterwards
+            ops += ["pair %d" % cc for cc in range(1, nc + 1) if rng.random() < 0.7]
         else:
             ops.append("pair %d" % c)
     # end-of-history probe: everything registered as writable-with-backlog must have been dispatched
@@ -271,7 +274,11 @@ def run(ctx):
             walks = walks[::4]
         check_executions(ctx, binary, [[c13.label_to_op(*x) for x in w] + c13.TAIL for w in walks], "graph_clients")
     nexec, nops = (800, 40) if ctx.quick else (10000, 60)
-    execs = c13.directed_execs() + [rand_exec(ctx.rng, nops) for _ in range(nexec)]
+    # Server::clear() and re-use: timers, clients and - above all - interrupt() must work as on a fresh server
+    cleared = [["pair 1", "timer 1 5", "run T", "clear", "interrupt", "run"], ["clear", "run T T"], ["timer 1 3", "clear", "timer 1 3", "run T T", "interrupt", "run T"],
+               ["interrupt", "clear", "pair 1", "psend 1 2", "run I1"], ["pair 1", "write 1 9 W", "clear", "pair 1", "write 1 3 F", "run A"] + c13.TAIL,
+               ["listen 1", "pconnect 1 1", "clear", "run A", "listen 1", "pconnect 2 1", "run L1"]]
+    execs = c13.directed_execs() + cleared + [rand_exec(ctx.rng, nops) for _ in range(nexec)]
     check_executions(ctx, binary, execs, "random")
     # listeners and establishers: acceptable / connected sockets dispatched, nothing after remove (also from callbacks)
     execs = [rand_net_exec(ctx.rng, nops) for _ in range(nexec // 2)]
